@@ -30,6 +30,16 @@ def main():
                         elif ex != res["export"]:
                             res["nondeterministic_build"] = True
                         res["answers"].append(b.run_history(hist))
+                        if case.get("default_pairs") and "default_test" not in res:
+                            # the repaired default test on pairs (default, value) of configurations of this graph
+                            from experimaestro.core.objects import HashComputer, ConfigPath
+
+                            class _Arg:
+                                def __init__(self, default):
+                                    self.default = default
+                            res["default_test"] = [
+                                bool(HashComputer(None, ConfigPath()).is_default(_Arg(b.allobjs[d]), b.allobjs[v]))
+                                for d, v in case["default_pairs"]]
                         if "export_after" not in res:
                             res["export_after"] = b.export()      # the state the FIRST history ends in
                     except Exception as e:  # noqa
